@@ -285,6 +285,61 @@ func ruleSeekTrial(r *Report) {
 			r.OK(rule, key, sites[0].Pos(), "header parse failures carry "+types.TypeString(found, nil))
 		}
 	}
+	// the plausibility checks of the parsed sizes belong to the header parse: a marker inside a payload followed by a
+	// well-formed header (its CRC can be made to match) with sizes no writer produces is no record either
+	for _, k := range []string{"recordio.MMapReader.ReadNextAt", "recordio.readNextAtV3", "recordio.readNextAtV2", "recordio.readNextAtV1"} {
+		fn := r.P.Func(k)
+		if fn == nil || marker == nil {
+			continue
+		}
+		for _, s := range CallsIn(fn, Keys("recordio.checkRecordSizes", "recordio.MMapReader.checkRecordFits")) {
+			key := rule + "/" + k + "/size-failure-typed/" + CalleeKey(s.Call())
+			al := errAliases(s)
+			typed := false
+			eachInstr(fn, func(t Site) {
+				st, ok := t.Instr.(*ssa.Store)
+				if !ok || !al[st.Val] {
+					return
+				}
+				if fa, ok := st.Addr.(*ssa.FieldAddr); ok {
+					if pt, ok := fa.X.Type().(*types.Pointer); ok {
+						if nt, ok := pt.Elem().(*types.Named); ok && types.Identical(nt, marker) {
+							typed = true
+						}
+					}
+				}
+			})
+			// or: every failure of the helper carries a sentinel that SeekNext tests for, and it is wrapped with %w here
+			viaSentinel := ""
+			if !typed {
+				if sc := s.Call().Common().StaticCallee(); sc != nil {
+					must := mustWrapSentinels(sc)
+					car := errCarriers(fn, func(v ssa.Value) bool { return al[v] })
+					kept := false
+					for _, rs := range returnsOf(fn) {
+						ret := rs.Instr.(*ssa.Return)
+						if idx := errorResultIndex(fn); idx >= 0 && idx < len(ret.Results) && (car[ret.Results[idx]] || al[ret.Results[idx]]) {
+							kept = true
+						}
+					}
+					if sk := r.P.Func("recordio.MMapReader.SeekNext"); sk != nil && kept {
+						for g := range seekSkippedSentinels(sk) {
+							if must[g] {
+								viaSentinel = g
+							}
+						}
+					}
+				}
+			}
+			if typed {
+				r.OK(rule, key, s.Pos(), "implausible sizes travel as "+types.TypeString(marker, nil))
+			} else if viaSentinel != "" {
+				r.OK(rule, key, s.Pos(), "every failure of the check wraps "+viaSentinel+", it is passed on with %w and SeekNext passes over that sentinel")
+			} else {
+				r.Bad(rule, key, s.Pos(), "the failure of the size check behind a parsed header is returned as a plain wrapped error: SeekNext recognises trial failures by their type, so a key or value that contains the record marker followed by a well-formed header (valid CRC) with sizes no writer produces aborts the seek instead of being passed over — a table with such a key cannot be opened with the disk index")
+			}
+		}
+	}
 	// a candidate whose header parses (its CRC can be made to match: RecordIO bytes stored inside a record) but whose
 	// payload does not decompress is no record either — unless the decompression failure travels typed as well, SeekNext
 	// gives up on it (known finding F-SEEK-1: not repaired, because treating it as "no record here" would also make
@@ -622,7 +677,7 @@ func ruleAllocBounded(r *Report) {
 // from the payload, and a payload that starts with the right five bytes makes the altered header pass.
 func ruleHeaderSizesChecked(r *Report) {
 	const rule = "header-sizes-checked"
-	r.Rule(rule, 3, "each v4 consumer (ReadNext, SkipNext, ReadNextAt) passes both parsed sizes to one plausibility check (compressed size 0 without compression; bounded expansion with it) on the success edge of the header parse, before it allocates, reads or seeks")
+	r.Rule(rule, 6, "each v4 consumer (ReadNext, SkipNext, ReadNextAt) passes both parsed sizes to one plausibility check (compressed size 0 without compression; bounded expansion with it) on the success edge of the header parse, before it allocates, reads or seeks")
 	p := r.P
 	o := &order{r, p}
 	for _, k := range []string{"recordio.FileReader.ReadNext", "recordio.FileReader.SkipNext", "recordio.MMapReader.ReadNextAt"} {
@@ -688,6 +743,7 @@ func ruleHeaderSizesChecked(r *Report) {
 		}
 		o.OnlyAfterSuccess(rule, key, fn, "the size plausibility check", checks, "using the sizes", uses, nil)
 	}
+	ruleUncompressedSizeRule(r)
 	// the bound on the expansion must admit everything the supported codecs can produce: deflate reaches 1032:1 on long
 	// runs, 12 bit LZW about 1340:1 at 8 MiB and more beyond (the reader must accept what the writer wrote)
 	if fn := p.Func("recordio.checkRecordSizes"); fn != nil {
@@ -846,7 +902,17 @@ func ruleTornRecordIsNotEOF(r *Report) {
 		}
 		for i, rd := range reads {
 			if i == 0 {
-				continue // the marker itself: the end of the file in front of it is the regular end
+				// the first byte of the marker: the end of the file in front of it is the regular end — unless the read
+				// stands in a loop (the marker taken byte by byte): from its second round on it is behind the first byte
+				again := false
+				for _, su := range rd.Block.Succs {
+					if reachFrom(su, nil)[rd.Block] {
+						again = true
+					}
+				}
+				if !again {
+					continue
+				}
 			}
 			check(fn, rd, "field")
 		}
@@ -860,4 +926,57 @@ func ruleTornRecordIsNotEOF(r *Report) {
 		}
 	}
 	_ = p
+}
+
+// mustWrapSentinels: the module sentinels that every non-nil error result of fn wraps (fmt.Errorf with %w of a load of the
+// sentinel, or the sentinel itself). Empty when some failing exit carries none.
+func mustWrapSentinels(fn *ssa.Function) map[string]bool {
+	idx := errorResultIndex(fn)
+	if idx < 0 || fn.Blocks == nil {
+		return nil
+	}
+	cands := map[string][]ssa.Value{}
+	eachInstr(fn, func(s Site) {
+		if u, ok := s.Instr.(*ssa.UnOp); ok {
+			if g := globalLoad(u); g != "" && isErrorType(u.Type()) {
+				cands[g] = append(cands[g], u)
+			}
+		}
+	})
+	out := map[string]bool{}
+	for g, vals := range cands {
+		set := map[ssa.Value]bool{}
+		for _, v := range vals {
+			set[v] = true
+		}
+		car := errCarriers(fn, func(v ssa.Value) bool { return set[v] })
+		all, any := true, false
+		for _, rs := range returnsOf(fn) {
+			ret := rs.Instr.(*ssa.Return)
+			if idx >= len(ret.Results) || isNilConst(ret.Results[idx]) {
+				continue
+			}
+			any = true
+			v := ret.Results[idx]
+			if !(set[v] || car[v] || set[stripIface(v)] || car[stripIface(v)]) {
+				all = false
+			}
+		}
+		if all && any {
+			out[g] = true
+		}
+	}
+	return out
+}
+
+// seekSkippedSentinels: the sentinels for which SeekNext keeps scanning after a failed trial read.
+func seekSkippedSentinels(fn *ssa.Function) map[string]bool {
+	out := map[string]bool{}
+	for _, b := range liveBlocks(fn) {
+		_, g, isS, _, ok := sentinelTest(b)
+		if ok && isS != nil && !endsInFailingReturn(isS) {
+			out[g] = true
+		}
+	}
+	return out
 }
